@@ -10,6 +10,7 @@ FUNCTIONS = ["gcmpy.joint_degree.joint_degree_loaders.joint_degree_split_degree.
 STUBS = ["the overall degree function fp is a harness lookup table of fresh positive reals"]
 BOUNDS = {
     "quick": "1..3 clique topologies, per-topology probabilities p_i symbolic in (0,1], degree range [lo,hi) with lo in 0..2 and width 1..3 (k<=4), "
+             "4 topologies with lo in 3..4 and width 1..2 (k<=6), "
              "fp(k) fresh positive reals; delta: every target from lo-1 to hi+1; constructor and dispatcher",
     "thorough": "1..4 topologies, width 1..4, lo in 0..3 (k<=7)",
 }
@@ -28,6 +29,10 @@ def configs(tier):
         for kind in ("split", "delta"):
             for via in (("direct", "enum") if T == 2 else ("direct",)):
                 cfgs.append({"name": f"{kind}-T{T}-{via}", "kind": kind, "T": T, "W": 3 if q else 4, "LO": 2 if q else 3, "via": via})
+    if q:
+        # four topologies (the property's upper end) on a narrow range that contains degrees >= 4, where all four columns can be non-zero
+        for kind in ("split", "delta"):
+            cfgs.append({"name": f"{kind}-T4-direct-k3to6", "kind": kind, "T": 4, "W": 2, "LO": 4, "LO_MIN": 3, "via": "direct"})
     cfgs.append({"name": "split-T2-str", "kind": "split", "T": 2, "W": 2, "LO": 1, "via": "str"})
     for kind in ("split", "delta"):
         cfgs.append({"name": f"{kind}-T2-motif-sizes[2, 4]", "kind": kind, "T": 2, "W": 3, "LO": 2, "via": "direct", "motif_sizes": [2, 4]})
